@@ -148,10 +148,20 @@ KindOK(kind, b) == /\ kind \in FailKinds
 (* Client SET statements: handled inside the proxy, nothing is sent to a backend. *)
 CanSet(c) == ~busy[c] /\ nsets < MaxSets
 
+(* A cs value is a (charset, collation) pair.  "d" and "b" are two charsets with their default collation, *)
+(* "a" is charset d with a non-default collation, "c" is charset b with a non-default collation.           *)
+(* The collation is a requested setting of its own: SET NAMES x COLLATE y requests exactly (x, y);          *)
+(* SET NAMES x without COLLATE requests x with x's DEFAULT collation - also when the session currently      *)
+(* uses x with another collation.                                                                           *)
+CharsetOf(v) == IF v \in {"d", "a"} THEN "d" ELSE "b"     \* a charset is named by its default pair
+Charsets == {CharsetOf(v) : v \in CsVals}
+
 SetNames(c, v) == /\ CanSet(c)
                   /\ tracked' = [tracked EXCEPT ![c].cs = v]
                   /\ nsets' = nsets + 1
                   /\ UNCHANGED <<believed, actual, idle, held, intx, busy, rejected, obs, nstmts, nfails>>
+SetNamesCollate(c, v) == SetNames(c, v)                  \* SET NAMES charset COLLATE collation
+SetNamesPlain(c, ch)  == ch \in CsVals /\ SetNames(c, ch) \* SET NAMES charset: the charset's default collation
 
 (* v = None is SET n = DEFAULT for session variables (Delete); user variables keep Null as a value *)
 SetVar(c, n, v) == /\ CanSet(c)
@@ -286,7 +296,8 @@ Commit(c) ==
 
 Fails == {"none"} \cup FailKinds
 
-Next == \/ \E c \in Clients, v \in CsVals : SetNames(c, v)
+Next == \/ \E c \in Clients, v \in CsVals : SetNamesCollate(c, v)
+        \/ \E c \in Clients, ch \in Charsets : SetNamesPlain(c, ch)
         \/ \E c \in Clients, n \in Names :
               \E v \in ValsOf(n) \cup (IF n \in UserVars THEN {} ELSE {None}) : SetVar(c, n, v)
         \/ \E c \in Clients, f \in Fails : StmtStart(c, f)
